@@ -13,6 +13,8 @@
 -/
 import MitmVerif.Lemmas.C41
 import MitmVerif.Model.C41_Lib
+import MitmVerif.Model.C41_Url
+import MitmVerif.Props.C33
 namespace MitmVerif.Props.C41
 open MitmVerif MitmVerif.C41
 
@@ -471,6 +473,172 @@ theorem mostlyBin_printable (p : Prim) (s : Bytes) (h : ∀ x ∈ s, isLow x = f
     have : 10 * (cutText s).length > 7 * (cutText s).length := by omega
     simp [this]
 
+
+/-! ### round 4: the URL library is transcribed too (`Model/C41_Url.lean`, over the C33 model of `mitmproxy.net.http.url`) -/
+
+section url
+open MitmVerif.C33 (Str)
+
+private theorem toStrF_toText_ascii : ∀ (s : Str) (f : Nat), (∀ c ∈ s, c < 128) → s.length ≤ f → toStrF f (toText s) = s := by
+  intro s
+  induction s with
+  | nil => intro f _ _; cases f <;> rfl
+  | cons c r ih =>
+    intro f hs hf
+    cases f with
+    | zero => simp at hf
+    | succ f' =>
+      have hc : c < 128 := hs c (List.mem_cons_self)
+      have e : toText (c :: r) = UInt8.ofNat c :: toText r := by
+        simp [toText, utf8Enc1, hc]
+      have hn : (UInt8.ofNat c).toNat = c := by
+        simp [UInt8.toNat_ofNat]; omega
+      rw [e]
+      simp only [toStrF, hn, hc, if_true]
+      rw [ih f' (fun x hx => hs x (List.mem_cons_of_mem _ hx)) (by simpa using hf)]
+
+private theorem toText_length_ascii (s : Str) (h : ∀ c ∈ s, c < 128) : (toText s).length = s.length := by
+  induction s with
+  | nil => rfl
+  | cons c r ih =>
+    have hc : c < 128 := h c (List.mem_cons_self)
+    have e : toText (c :: r) = UInt8.ofNat c :: toText r := by simp [toText, utf8Enc1, hc]
+    rw [e]; simp [ih (fun x hx => h x (List.mem_cons_of_mem _ hx))]
+
+/-- on ASCII strings the two representations of a Python `str` coincide -/
+theorem toStr_toText_ascii (s : Str) (h : ∀ c ∈ s, c < 128) : toStr (toText s) = s := by
+  unfold toStr
+  exact toStrF_toText_ascii s _ h (by rw [toText_length_ascii s h]; exact Nat.le_refl _)
+
+/-- `url.parse` only accepts ASCII URLs -/
+theorem urlParse_ascii (P : C33.UrlLib) (u : Str) (q : Str × Str × Nat × Str) (h : C33.urlParse P u = some q) :
+    ∀ c ∈ u, c < 128 := by
+  unfold C33.urlParse at h
+  by_cases ha : u.any (fun c => decide (c ≥ 128)) = true
+  · cases h1 : P.split u with
+    | none => simp [h1] at h
+    | some t =>
+      obtain ⟨sc, nl, full⟩ := t
+      simp only [h1] at h
+      cases h2 : C33.hostname nl with
+      | none => simp [h2] at h
+      | some hn =>
+        simp only [h2] at h
+        cases h3 : P.idnaRt hn with
+        | none => simp [h3] at h
+        | some hd => simp [h3, ha] at h
+  · intro c hc
+    have : ¬ (c ≥ 128) := by
+      intro hge
+      exact ha (List.any_eq_true.mpr ⟨c, hc, by simpa using hge⟩)
+    omega
+
+/-- the request the URL getter renders (C33): `url r = scheme://hostport/path` -/
+private theorem url_form (r : C33.Req) (hm : r.method.map C33.upperC ≠ C33.S "CONNECT") (hs : r.path.head? = some 47) :
+    C33.url r = C33.unparse r.scheme r.host r.port r.path := by
+  have : r.path ≠ [42] := by intro e; rw [e] at hs; simp at hs
+  unfold C33.url; simp [hm, this]
+
+/-- **F-C41c as a theorem (1)**: for a request whose URL is `scheme://host[:port]/path` with http/https, a lower-case ASCII
+host, a port in 1…65535 and an ASCII path (`GetterUrlOk` of C33), `Request.make(url=…)` parses it and would write exactly
+`hostport(scheme, host, port)` into the Host header -/
+theorem urlHostport_getter (U : UrlPrim) (r : C33.Req) (ok : MitmVerif.Props.C33.GetterUrlOk (pyOf U) r) :
+    urlHostportT U (toText (C33.url r)) = some (toText (C33.hostport r.scheme r.host r.port)) := by
+  have hp := MitmVerif.Props.C33.url_parse_reads_getter_url (pyOf U) r ok
+  have ha := urlParse_ascii _ _ _ hp
+  unfold urlHostportT parseUrl
+  rw [toStr_toText_ascii _ ha, hp]; rfl
+
+private theorem prettyPort_portOpt (s : Str) (p : Nat) (hp : 1 ≤ p) :
+    prettyPort s (MitmVerif.Props.C33.portOpt s p) = p := by
+  unfold prettyPort MitmVerif.Props.C33.portOpt
+  by_cases hd : C33.defaultPort s = some p
+  · simp [hd]
+  · have : p ≠ 0 := by omega
+    simp [hd, this]
+
+/-- **F-C41c as a theorem (2)**: the imported request shows the same URL, whether it has no Host header, an empty one, or
+the canonical `host[:port]` one -/
+theorem urlPretty_getter (U : UrlPrim) (r : C33.Req) (ok : MitmVerif.Props.C33.GetterUrlOk (pyOf U) r) (h : Option Text)
+    (hh : h = none ∨ h = some [] ∨
+      (h = some (toText (C33.hostport r.scheme r.host r.port)) ∧ U.validAuthHost r.host = true)) :
+    urlPrettyT U (toText (C33.url r)) h = toText (C33.url r) := by
+  have hp := MitmVerif.Props.C33.url_parse_reads_getter_url (pyOf U) r ok
+  have ha := urlParse_ascii _ _ _ hp
+  have hform := url_form r ok.notConnect ok.pathSlash
+  have hne42 : r.path ≠ [42] := by intro e; have := ok.pathSlash; rw [e] at this; simp at this
+  unfold urlPrettyT parseUrl
+  rw [toStr_toText_ascii _ ha, hp]
+  simp only [hne42, if_false]
+  rcases hh with rfl | rfl | ⟨rfl, hv⟩
+  · simp [hform]
+  · simp [hform]
+  · -- hostport is ASCII (it is part of the URL) and non-empty
+    have hsub : ∀ c ∈ C33.hostport r.scheme r.host r.port, c < 128 := by
+      intro c hc
+      apply ha c
+      rw [hform]; unfold C33.unparse
+      simp [hc]
+    have hne : toText (C33.hostport r.scheme r.host r.port) ≠ [] := by
+      intro e
+      have hl := toText_length_ascii _ hsub
+      rw [e] at hl
+      have h0 : C33.hostport r.scheme r.host r.port = [] := List.eq_nil_of_length_eq_zero hl.symm
+      have hb : C33.bracket r.host ≠ [] := by
+        unfold C33.bracket; split
+        · simp
+        · exact ok.host.shape.1
+      unfold C33.hostport at h0
+      split at h0
+      · exact hb h0
+      · simp at h0
+    have hpa := MitmVerif.Props.C33.parseAuthority_hostport U.validAuthHost r.scheme r.host r.port ok.host.shape hv ok.port.2
+    simp only [hne, if_false, toStr_toText_ascii _ hsub, C33.parseAuthorityLoose, hpa, Option.getD_some,
+      prettyPort_portOpt r.scheme r.port ok.port.1, hform]
+
+/-- **the URL/Host conjuncts of the guard are theorems** for the library with the URL functions transcribed: if the
+flow's `pretty_url` is the rendering of a well-formed request (C33 `GetterUrlOk`) and its Host field is absent or is
+exactly `host[:port]`, then `gUrlParse`, `gUrl` and `gHost` hold (F-C41c/d cannot occur). -/
+theorem url_guards_of_getter (p : Prim) (U : UrlPrim) (f : Flow) (r : C33.Req)
+    (ok : MitmVerif.Props.C33.GetterUrlOk (pyOf U) r)
+    (hm : gMethod (mkLibU p U) f = true)
+    (hu : f.purl = toText (C33.url r))
+    (hh : fieldsOf f.req.hdrs kHost = [] ∨
+      (∃ hpB, fieldsOf f.req.hdrs kHost = [hpB] ∧ p.senc (toText (C33.hostport r.scheme r.host r.port)) = some hpB ∧
+        p.sdec hpB = toText (C33.hostport r.scheme r.host r.port) ∧ U.validAuthHost r.host = true)) :
+    gUrlParse (mkLibU p U) f = true ∧ gUrl (mkLibU p U) f = true ∧ gHost (mkLibU p U) f = true := by
+  have hmeth : methodOf (mkLibU p U) f.method ≠ L "CONNECT" := by simpa [gMethod] using hm
+  have heu : exportUrl (mkLibU p U) f = toText (C33.url r) := by simp [exportUrl, hmeth, hu]
+  have h1 := urlHostport_getter U r ok
+  have e1 : (mkLibU p U).urlHostport = urlHostportT U := rfl
+  have e2 : (mkLibU p U).urlPretty = urlPrettyT U := rfl
+  have e3 : (mkLibU p U).senc = p.senc := rfl
+  have e4 : (mkLibU p U).sdec = p.sdec := rfl
+  refine ⟨by simp [gUrlParse, heu, e1, h1], ?_, ?_⟩
+  · rcases hh with h0 | ⟨hpB, hf, _, hsd, hv⟩
+    · have : hget (mkLibU p U) f.req.hdrs kHost = none := by unfold hget; rw [h0]
+      have h2 := urlPretty_getter U r ok none (Or.inl rfl)
+      simp [gUrl, heu, e2, this, h2, hu]
+    · have : hget (mkLibU p U) f.req.hdrs kHost = some (toText (C33.hostport r.scheme r.host r.port)) := by
+        unfold hget; rw [hf]; simp [joinCS, e4, hsd]
+      have h2 := urlPretty_getter U r ok _ (Or.inr (Or.inr ⟨rfl, hv⟩))
+      simp [gUrl, heu, e2, this, h2, hu]
+  · rcases hh with h0 | ⟨hpB, hf, hse, _, _⟩
+    · have hc : hcontains f.req.hdrs kHost = false := not_contains_iff.mpr h0
+      simp [gHost, heu, e1, h1, hc]
+    · have hc : hcontains f.req.hdrs kHost = true := by unfold hcontains; rw [hf]; rfl
+      simp [gHost, heu, e1, h1, hc, e3, hse, hf]
+
+/-- the guarded round trip with the URL library inside the model as well: the parameters left are the text codecs,
+str primitives, UTF-8 validity, base64, content codings, three regex searches, `_check_bracketed_host`, the IDNA codec,
+`is_valid_host` and JSON -/
+theorem import_export_preserves_url_transcribed {J : Type} (p : Prim) (U : UrlPrim) (js : Json J) (pl : PrimLaws p)
+    (jl : JsonLaw js) (fs : List Flow) (hg : ∀ f ∈ fs, guardAll (mkLibU p U) f = true) :
+    ∃ fs', roundtrip (mkLibU p U) js fs = some fs' ∧ InOrder (fun f f' => same (mkLibU p U) f f' = true) fs fs' :=
+  import_export_preserves_guarded (mkLibU p U) js ⟨pl.senc_sdec, pl.sdec_ascii, pl.method_rt, pl.b64⟩ jl fs hg
+
+end url
+
 /-- a concrete primitive set for non-vacuity (identity codecs) -/
 def toyPrim : Prim where
   sdec := id
@@ -509,5 +677,36 @@ example : mostlyBinT toyPrim (L "hello world") = false := by decide +kernel
 /-- the guarded class is inhabited under the transcribed library too, and an HTTP/2 flow is still outside it -/
 example : guardAll (mkLib toyPrim) okFlow = true := by decide +kernel
 example : guardAll (mkLib toyPrim) h2Flow = false := by decide +kernel
+
+/-- CPython answers for non-vacuity: every bracketed literal / host accepted, IDNA leaves names alone -/
+def toyUrl : UrlPrim := ⟨fun _ => true, some, fun _ => true, fun _ => true⟩
+
+def toyReq : C33.Req :=
+  { h2 := false, method := C33.S "POST", scheme := C33.S "http", host := C33.S "example.com", port := 8080,
+    path := C33.S "/a;p?x=1", hostHeader := none, authority := [] }
+
+/-- the hypotheses of the URL theorems are satisfiable … -/
+example : MitmVerif.Props.C33.GetterUrlOk (pyOf toyUrl) toyReq where
+  notConnect := by decide +kernel
+  scheme := Or.inl rfl
+  host := ⟨⟨by decide +kernel, by decide +kernel, by decide +kernel, by decide +kernel⟩, by decide +kernel,
+           by decide +kernel, by decide +kernel⟩
+  port := by decide
+  pathSlash := by decide +kernel
+  pathAscii := by decide +kernel
+  bracketedOk := fun _ => rfl
+  idnaAscii := rfl
+  hostValid := rfl
+  restStable := by decide +kernel
+
+/-- … and the transcription computes what the Python functions return -/
+example : urlHostportT toyUrl (L "http://Example.COM:8080/a;p?x=1") = some (L "example.com:8080") := by decide +kernel
+example : urlHostportT toyUrl (L "https://example.com:443/") = some (L "example.com") := by decide +kernel
+example : urlHostportT toyUrl (L "http://example.com/" ++ [0xc3, 0xa9]) = none := by decide +kernel
+example : urlPrettyT toyUrl (L "http://10.0.0.1:8080/x") (some (L "example.com")) = L "http://example.com/x" := by decide +kernel
+example : urlPrettyT toyUrl (L "http://10.0.0.1:8080/x") none = L "http://10.0.0.1:8080/x" := by decide +kernel
+example : guardAll (mkLibU toyPrim toyUrl) { okFlow with purl := L "http://example.com/a?x=1" } = true := by decide +kernel
+/-- F-C41d inside the transcribed library: `Host: example.com:80` is not what hostport writes -/
+example : gHost (mkLibU toyPrim toyUrl) { hostFlow with purl := L "http://example.com/a" } = false := by decide +kernel
 
 end MitmVerif.Props.C41
